@@ -847,3 +847,57 @@ func genCreate(prop string, seed uint64, run int) *Scenario {
 	}
 	return sc
 }
+
+// ---------------------------------------------------------------------------
+// A watched directory whose absolute path is close to PATH_MAX: the names of
+// the events of its entries are longer than any path a system call accepts.
+
+func genDeep(prop string, seed uint64, run int) *Scenario {
+	g := newGen(seed)
+	sc := &Scenario{Prop: prop, Family: "deep", Seed: seed, Run: run}
+	g.swarm(&sc.Cfg)
+	sc.Cfg.Lagfree = g.chance(0.5)
+	sc.Cfg.Coalesce = false
+	sc.Setup = []Op{
+		{K: OpDeepMk, N: 3800 + g.r.Intn(290)},
+		{K: OpCreate, P: "@deep/old"},
+		{K: OpNewWatcher, N: bufSizes[g.r.Intn(len(bufSizes))]},
+		{K: OpAdd, P: "@deep", Abs: true},
+	}
+	var ops []Op
+	var live []string
+	for i := 2 + g.r.Intn(10); i > 0; i-- {
+		n := nameLens[g.r.Intn(len(nameLens))]
+		name := fmt.Sprintf("e%d_", i)
+		for len(name) < n {
+			name += "x"
+		}
+		name = name[:max(n, len(fmt.Sprintf("e%d_", i)))]
+		p := "@deep/" + name
+		switch g.r.Intn(6) {
+		case 0, 1, 2:
+			ops = append(ops, Op{K: OpCreate, P: p}, Op{K: OpWrite, P: p, N: 1})
+			live = append(live, p)
+		case 3:
+			if len(live) > 0 {
+				q := live[g.r.Intn(len(live))]
+				ops = append(ops, Op{K: OpChmod, P: q, N: 0o640})
+			}
+		case 4:
+			if len(live) > 0 {
+				k := g.r.Intn(len(live))
+				ops = append(ops, Op{K: OpRename, P: live[k], P2: p})
+				live[k] = p
+			}
+		case 5:
+			if len(live) > 0 {
+				k := g.r.Intn(len(live))
+				ops = append(ops, Op{K: OpUnlink, P: live[k]})
+				live = append(live[:k], live[k+1:]...)
+			}
+		}
+	}
+	ops = append(ops, Op{K: OpWrite, P: "@deep/old", N: 1})
+	sc.Tasks = []TaskScript{{Name: "seq", Role: "world", Ops: ops}}
+	return sc
+}
